@@ -1,3 +1,4 @@
+import Pocket.Lemmas.Refine2
 import Pocket.Lemmas.StoreDel
 /-
 C10 — a deletion request can never remove another author's events.
@@ -53,5 +54,29 @@ example :
     let s := run {} [.store e1, .store e2]
     (storeEvent s req).1 = .invalidDelete ∧ ((storeEvent s req).2.db.live.map (·.e.id)).length = 2 := by
   decide +kernel
+
+/-! ### the property read on the specification (the abstract store of `Spec/AbsStore.lean`, which `full_history_refines` proves
+the concrete model computes for every history) -/
+
+/-- after any history, an event that is retrievable in the abstract store stays retrievable through every continuation made of
+events (deletion requests included) signed by OTHER keys -/
+theorem spec_foreign_history_harmless (pre : List Op) (reqs : List EventRec) (v : EventRec)
+    (ht : ∀ op ∈ pre ++ reqs.map Op.store, opTimeOk op) (hlen : (pre ++ reqs.map Op.store).length < U32MAX)
+    (hv : v ∈ (pre.foldl absOp {}).live) (hall : ∀ r ∈ reqs, r.pubkey ≠ v.pubkey) :
+    v ∈ ((pre ++ reqs.map Op.store).foldl absOp {}).live := by
+  have e0 : Abs.of ({} : Store) = ({} : Abs) := rfl
+  have h1 := full_history_refines pre (fun op h => ht op (List.mem_append_left _ h))
+    (by simp only [List.length_append] at hlen; omega)
+  have h2 := full_history_refines (pre ++ reqs.map Op.store) ht hlen
+  rw [e0] at h1 h2
+  rw [← h1] at hv
+  rw [← h2]
+  simp only [Abs.of, List.mem_map] at hv ⊢
+  obtain ⟨x, hx, rfl⟩ := hv
+  refine ⟨x, ?_, rfl⟩
+  have hr : run {} (pre ++ reqs.map Op.store) = run (run {} pre) (reqs.map Op.store) := by
+    simp [run, List.foldl_append]
+  rw [hr]
+  exact foreign_history_harmless (run {} pre) (Inv_run {} pre Inv_init) x hx reqs hall
 
 end Pocket.C10
